@@ -65,8 +65,12 @@ def obligations(tier):
         for n in (0, 1, 2):
             o.append(delta(wide, n, src=0, tag='/via-encoder'))
         # every stream of the layout, reference decoder as the oracle
-        for n in ([1, 2, 3, 9, 33, 34, 130] if q else [1, 2, 3, 5, 9, 32, 33, 34, 65, 66, 97, 129, 130, 257]):
-            o.append(delta(wide, n))
+        for n in ([1, 2, 3, 9, 33, 34] if q else [1, 2, 3, 5, 9, 32, 33, 34, 65, 66]):
+            o.append(delta(wide, n, timeout=600))
+        # second block (129 values fill the first one): one width vector per obligation
+        for n in ([130] if q else [97, 129, 130, 257]):
+            for ws in ([4] if q else [0, 1, 2, 3, 4, 5] + ([6] if wide else [])):
+                o.append(delta(wide, n, wsel=ws, timeout=900))
         for n in ([3] if q else [2, 3, 9]):
             o.append(delta(wide, n, zz=0, timeout=600))
         # legal block shapes carquet's decoder does not document: an error, never wrong values ...
